@@ -10,3 +10,6 @@ func VerifDiscriminatorFromAvg(avg uint64) uint32 { return discriminatorFromAvg(
 
 // VerifMakeGoodbyeBST exposes makeGoodbyeBST.
 func VerifMakeGoodbyeBST(in []FormatGoodbyeItem) []FormatGoodbyeItem { return makeGoodbyeBST(in) }
+
+// VerifMkdev exposes mkdev.
+func VerifMkdev(major, minor uint64) uint64 { return mkdev(major, minor) }
